@@ -156,3 +156,32 @@ Proof.
     destruct (is_nil fa && is_nil fb); [|discriminate]. intros H; injection H as <-; reflexivity.
 Qed.
 Print Assumptions C01_other_operators_only_over_argument_free_operands.
+
+(* the UFL operators of the scalar integrand become the LNodes nodes of the same meaning: the table
+   lnodes._ufl_call_lookup is regenerated into gen/LookupGen.v by tr_lookup.py on every run *)
+From FFCX Require Import LN LookupBase Lookup.
+
+Theorem C01_comparison_operators_keep_their_meaning :
+  forall (T : Type) (of_Z : Z -> T) (tadd tsub tmul tdiv : T -> T -> T) (teqb tltb tleb : T -> T -> bool),
+    cmp_entry_ok T of_Z tadd tsub tmul tdiv teqb tltb tleb "LT" /\ cmp_entry_ok T of_Z tadd tsub tmul tdiv teqb tltb tleb "LE" /\
+    cmp_entry_ok T of_Z tadd tsub tmul tdiv teqb tltb tleb "GT" /\ cmp_entry_ok T of_Z tadd tsub tmul tdiv teqb tltb tleb "GE" /\
+    cmp_entry_ok T of_Z tadd tsub tmul tdiv teqb tltb tleb "EQ" /\ cmp_entry_ok T of_Z tadd tsub tmul tdiv teqb tltb tleb "NE".
+Proof. exact comparisons_keep_their_meaning. Qed.
+Print Assumptions C01_comparison_operators_keep_their_meaning.
+
+Theorem C01_connectives_conditionals_arithmetic_and_functions_keep_their_meaning :
+  forall (T : Type) (of_Z : Z -> T) (tadd tsub tmul tdiv : T -> T -> T) (teqb tltb tleb : T -> T -> bool),
+    ((has "AndCondition" (Node "And" "01") = true /\
+      forall p q, @arith T of_Z tadd tsub tmul tdiv teqb tltb tleb OAnd (VB p) (VB q) = Some (VB (andb p q))) /\
+     (has "OrCondition" (Node "Or" "01") = true /\
+      forall p q, @arith T of_Z tadd tsub tmul tdiv teqb tltb tleb OOr (VB p) (VB q) = Some (VB (orb p q))) /\
+     has "NotCondition" (Node "Not" "0") = true /\ has "Conditional" (Node "Conditional" "012") = true) /\
+    (has "Sum" (Ovl "Add" "01") = true /\ has "Product" (Ovl "Mul" "01") = true /\ has "Division" (Ovl "Div" "01") = true) /\
+    forallb (fun u => has u MathFn) math_ops = true /\
+    (has "IntValue" (Lit "LiteralInt(int(x))") = true /\ has "FloatValue" (Lit "LiteralFloat(float(x))") = true /\
+     has "ComplexValue" (Lit "LiteralFloat(x.value())") = true /\ has "Zero" (Lit "LiteralFloat(0.0)") = true).
+Proof.
+  intros. split; [apply connectives_keep_their_meaning|]. split; [exact arithmetic_goes_through_the_overloads|].
+  split; [exact math_functions_go_to_mathfunction | exact literals_keep_their_value].
+Qed.
+Print Assumptions C01_connectives_conditionals_arithmetic_and_functions_keep_their_meaning.
